@@ -680,6 +680,8 @@ class Interp:
             return self.truth_sym(s[2][0])
         if s[0] in ("tuple", "list", "set"):
             return len(s[1]) > 0
+        if _nonempty_text(s):
+            return True
         if s[0] == "call" and s[1] == N("isinstance") and len(s[2]) == 2 and not s[3] and s[2][1][0] == "tuple" and s[2][1][1]:
             # isinstance(x, (A, B)) is isinstance(x, A) or isinstance(x, B): decided class by class, so that it relates to
             # what a scenario (or an earlier test) says about the single classes
@@ -923,6 +925,22 @@ class _EvalBuilder(_Builder):
                 return C(tuple(args[0][1]))
             if name in ("set", "frozenset") and len(args) == 1 and args[0][0] == "c" and isinstance(args[0][1], (tuple, frozenset)):
                 return C(frozenset(args[0][1]))
+        if f[0] == "a" and f[1][0] == "c" and isinstance(f[1][1], str) and f[2] == "format" and not kw and args and not any(a[0] == "star" for a in args):
+            # "..{}..".format(x, y) with plain positional fields is the f-string with the same holes
+            import re as _re
+            pieces = _re.split(r"(\{\}|\{\{|\}\})", f[1][1])
+            if "{" not in "".join(p_ for p_ in pieces if p_ not in ("{}", "{{", "}}")) and pieces.count("{}") == len(args):
+                parts = []
+                k = 0
+                for p_ in pieces:
+                    if p_ == "{}":
+                        parts.append(("fmt", args[k], "", None))
+                        k += 1
+                    elif p_ in ("{{", "}}"):
+                        parts.append(("c", p_[0]))
+                    elif p_:
+                        parts.append(("c", p_))
+                return ("fstr", tuple(parts))
         if f[0] == "a" and f[1][0] == "c" and not kw and all(a[0] == "c" for a in args):
             recv = f[1][1]
             if isinstance(recv, str) and f[2] in ("upper", "lower", "strip", "lstrip", "rstrip", "replace", "startswith", "endswith", "split"):
@@ -932,6 +950,8 @@ class _EvalBuilder(_Builder):
                     return s
             if isinstance(recv, str) and f[2] == "join" and len(args) == 1 and isinstance(args[0][1], tuple) and all(isinstance(x, str) for x in args[0][1]):
                 return C(recv.join(args[0][1]))
+            if isinstance(recv, str) and f[2] == "format" and False:
+                pass
             if isinstance(recv, HDict) and f[2] == "get":
                 try:
                     from .sym import const_or_name
@@ -1098,6 +1118,15 @@ class _EvalBuilder(_Builder):
         if fn.args.kwarg:
             return None
         return (i.mod, fn)
+
+
+def _nonempty_text(s: Sym) -> bool:
+    """a string built by concatenation / f-string that contains a non-empty constant piece is never empty (truthy)"""
+    if s[0] == "fstr":
+        return any(x[0] == "c" and isinstance(x[1], str) and x[1] for x in s[1])
+    if s[0] == "op" and s[1] == "+":
+        return any((x[0] == "c" and isinstance(x[1], (str, bytes)) and len(x[1]) > 0) or _nonempty_text(x) for x in s[2:])
+    return False
 
 
 def _elem_of(it: Sym) -> Sym:
